@@ -80,6 +80,7 @@ type Obligation struct {
 	Result  SolverResult
 	All     []SolverResult
 	Inputs  []inputVar
+	Model   map[string]string
 }
 
 type inputVar struct {
@@ -109,6 +110,8 @@ type VC struct {
 	strlits  map[string]Term
 	refKeys  map[string]bool
 	keyInt   map[string]types.Type
+	cutsHit  map[string]bool
+	axiomsDone bool
 	fpMode   bool
 	abstracted []string
 	opaqueCalls int
@@ -654,6 +657,9 @@ func (vc *VC) zero(t types.Type) Sym {
 }
 
 func (vc *VC) strLit(s string) Term {
+	if s == "" {
+		return "sempty"
+	}
 	if t, ok := vc.strlits[s]; ok {
 		return t
 	}
@@ -668,7 +674,7 @@ func (vc *VC) strLit(s string) Term {
 	// distinctness from earlier literals of the same length follows from bytes only for short ones;
 	// assert it directly (string literals with different contents are different values).
 	for o, ot := range vc.strlits {
-		if o != s {
+		if o != s && len(o) == len(s) {
 			vc.emit(fmt.Sprintf("(assert (not (= %s %s)))", n, ot))
 		}
 	}
@@ -1643,6 +1649,10 @@ func (f *frame) execBlock(b *ssa.BasicBlock, cur *State) {
 			}
 			cur = &State{dead: true}
 		default:
+			if f.isCut(in) {
+				cur = &State{dead: true}
+				break
+			}
 			func() {
 				defer func() {
 					if r := recover(); r != nil {
@@ -1670,6 +1680,44 @@ func (f *frame) execBlock(b *ssa.BasicBlock, cur *State) {
 			g := f.edgeGuardFor(b, s, nth)
 			f.backEdge(b, s, nth, cur, g)
 		}
+	}
+}
+
+// isCut reports whether instruction in lies on a source line named by a cut@ clause of the verified function.
+func (f *frame) isCut(in ssa.Instruction) bool {
+	ct := f.ct
+	if ct == nil || len(ct.Cuts) == 0 || !in.Pos().IsValid() {
+		return false
+	}
+	p := f.vc.eng.fset.Position(in.Pos())
+	line := f.vc.eng.sourceLine(p.Filename, p.Line)
+	for _, c := range ct.Cuts {
+		if strings.Contains(line, c) {
+			f.vc.cutsHit[c] = true
+			return true
+		}
+	}
+	return false
+}
+
+// useAxioms asserts the declared axioms (once per VC, the first time an uninterpreted spec function is used).
+func (vc *VC) useAxioms() {
+	if vc.axiomsDone {
+		return
+	}
+	vc.axiomsDone = true
+	sc := vc.newScope(vc.entry, vc.entry)
+	if vc.entry == nil {
+		vc.axiomsDone = false
+		return
+	}
+	for _, ax := range vc.eng.db.Axioms {
+		t, err := sc.evalBool(ax.E)
+		if err != nil {
+			vc.errs = append(vc.errs, fmt.Sprintf("%s: %v", ax.Line, err))
+			continue
+		}
+		vc.emit(fmt.Sprintf("(assert %s)", t))
 	}
 }
 
